@@ -77,6 +77,13 @@ Definition pure_ok (e : func * nat) : bool :=
   (snd e <=? fst (fst e)) && bools_eqb (explicit_verdict gen_table FUEL (fst e) (snd e)) (repeat false (snd e)).
 
 Definition pure_entries : list (func * nat) := [
+  (eff_optimize_bisect, arity_optimize_bisect);
+  (eff_visualization__generate_scatter_2d_plot, arity_visualization__generate_scatter_2d_plot);
+  (eff_visualization_scatter_2d, arity_visualization_scatter_2d);
+  (eff_visualization_compare_2d, arity_visualization_compare_2d);
+  (eff_visualization__generate_scatter_3d_plot, arity_visualization__generate_scatter_3d_plot);
+  (eff_visualization_scatter_3d, arity_visualization_scatter_3d);
+  (eff_visualization_compare_3d, arity_visualization_compare_3d);
   (eff_optimize_chandrupatla, arity_optimize_chandrupatla);
   (eff_visualization__generate_1d_plot, arity_visualization__generate_1d_plot);
   (eff_visualization_dist_1d, arity_visualization_dist_1d);
@@ -179,6 +186,20 @@ Qed.
 (* one named statement per entry point (each is an obligation of the evidence) *)
 Ltac ep := vm_compute; reflexivity.
 Ltac side := first [lia | (vm_compute; lia) | (vm_compute; reflexivity)].
+Theorem C20_ep_optimize_bisect : explicit_verdict gen_table FUEL eff_optimize_bisect arity_optimize_bisect = [false; false; false; false; false].
+Proof. ep. Qed.
+Theorem C20_ep_visualization__generate_scatter_2d_plot : explicit_verdict gen_table FUEL eff_visualization__generate_scatter_2d_plot arity_visualization__generate_scatter_2d_plot = [false; false; false; false].
+Proof. ep. Qed.
+Theorem C20_ep_visualization_scatter_2d : explicit_verdict gen_table FUEL eff_visualization_scatter_2d arity_visualization_scatter_2d = [false; false; false].
+Proof. ep. Qed.
+Theorem C20_ep_visualization_compare_2d : explicit_verdict gen_table FUEL eff_visualization_compare_2d arity_visualization_compare_2d = [false; false; false; false].
+Proof. ep. Qed.
+Theorem C20_ep_visualization__generate_scatter_3d_plot : explicit_verdict gen_table FUEL eff_visualization__generate_scatter_3d_plot arity_visualization__generate_scatter_3d_plot = [false; false; false; false].
+Proof. ep. Qed.
+Theorem C20_ep_visualization_scatter_3d : explicit_verdict gen_table FUEL eff_visualization_scatter_3d arity_visualization_scatter_3d = [false; false; false].
+Proof. ep. Qed.
+Theorem C20_ep_visualization_compare_3d : explicit_verdict gen_table FUEL eff_visualization_compare_3d arity_visualization_compare_3d = [false; false; false; false].
+Proof. ep. Qed.
 Theorem C20_ep_optimize_chandrupatla : explicit_verdict gen_table FUEL eff_optimize_chandrupatla arity_optimize_chandrupatla = [false; false; false; false; false; false].
 Proof. ep. Qed.
 Theorem C20_ep_visualization__generate_1d_plot : explicit_verdict gen_table FUEL eff_visualization__generate_1d_plot arity_visualization__generate_1d_plot = [false; false; false; false].
@@ -345,71 +366,22 @@ Theorem C20_ep_datasets_sample_univariates : explicit_verdict gen_table FUEL eff
 Proof. ep. Qed.
 
 (* ================================================================================================ *)
-(* 3. Entry points that DO write to a caller-owned argument on the current tree (expected refutations; *)
-(*    each is confirmed on the implementation by the dynamic check: findings F16a, F16b)           *)
+(* 3. History: defects found by this check and repaired in the source                                *)
 (* ================================================================================================ *)
-(* When one of these defects is repaired in the source, its `_refuted` theorem stops compiling (the verdict flips); the
-   repaired entry point then belongs in [pure_entries] above (with a C20_ep_ statement) and the refutation is deleted. *)
-(* F16a: bisect(f, xmin, xmax, tol, maxiter) overwrites both bracket arrays *)
-Theorem C20_bisect_refuted :
-  explicit_verdict gen_table FUEL eff_optimize_bisect arity_optimize_bisect = [false; true; true; false; false] /\
-  content (snd (exec_fun all_view gen_table FUEL eff_optimize_bisect (unit_store 5))) 1 <> content (unit_store 5) 1 /\
-  content (snd (exec_fun all_view gen_table FUEL eff_optimize_bisect (unit_store 5))) 2 <> content (unit_store 5) 2.
-Proof. split; [ep|]. split; apply mutated_true; ep. Qed.
-Theorem C20_bisect_partial :
-  forall (o : oracle) fe (actuals : store), 5 <= length actuals ->
-    content (snd (exec_fun o gen_table fe eff_optimize_bisect actuals)) 0 = content actuals 0.
-Proof.
-  intros o fe actuals H. apply (exec_fun_arg_unchanged gen_table FUEL fe _ o actuals 5 0); side.
-Qed.
-
-(* F16b: the 2d plot helpers append 'Data' to the caller's `columns` list; the frames are copied first *)
-Theorem C20_generate_scatter_2d_refuted :
-  explicit_verdict gen_table FUEL eff_visualization__generate_scatter_2d_plot arity_visualization__generate_scatter_2d_plot
-    = [false; true; false; false] /\
-  content (snd (exec_fun all_view gen_table FUEL eff_visualization__generate_scatter_2d_plot (unit_store 4))) 1 <> content (unit_store 4) 1.
-Proof. split; [ep | apply mutated_true; ep]. Qed.
-Theorem C20_scatter_2d_refuted :
-  explicit_verdict gen_table FUEL eff_visualization_scatter_2d arity_visualization_scatter_2d = [false; true; false] /\
-  content (snd (exec_fun all_view gen_table FUEL eff_visualization_scatter_2d (unit_store 3))) 1 <> content (unit_store 3) 1.
-Proof. split; [ep | apply mutated_true; ep]. Qed.
-Theorem C20_compare_2d_refuted :
-  explicit_verdict gen_table FUEL eff_visualization_compare_2d arity_visualization_compare_2d = [false; false; true; false] /\
-  content (snd (exec_fun all_view gen_table FUEL eff_visualization_compare_2d (unit_store 4))) 2 <> content (unit_store 4) 2.
-Proof. split; [ep | apply mutated_true; ep]. Qed.
-(* ... and only that: the data frames handed to scatter_2d / compare_2d are never touched *)
-Theorem C20_scatter_2d_partial :
-  forall (o : oracle) fe (actuals : store), 3 <= length actuals ->
-    content (snd (exec_fun o gen_table fe eff_visualization_scatter_2d actuals)) 0 = content actuals 0.
-Proof. intros o fe actuals H. apply (exec_fun_arg_unchanged gen_table FUEL fe _ o actuals 3 0); side. Qed.
-Theorem C20_compare_2d_partial :
-  forall (o : oracle) fe (actuals : store), 4 <= length actuals ->
-    firstn 2 (snd (exec_fun o gen_table fe eff_visualization_compare_2d actuals)) = firstn 2 actuals.
-Proof. intros o fe actuals H. apply (exec_fun_pure_prefix gen_table FUEL fe _ o actuals 2); side. Qed.
-
-(* F16b: the 3d plot helpers append 'Data' to the caller's `columns` list; the frames are copied first *)
-Theorem C20_generate_scatter_3d_refuted :
-  explicit_verdict gen_table FUEL eff_visualization__generate_scatter_3d_plot arity_visualization__generate_scatter_3d_plot
-    = [false; true; false; false] /\
-  content (snd (exec_fun all_view gen_table FUEL eff_visualization__generate_scatter_3d_plot (unit_store 4))) 1 <> content (unit_store 4) 1.
-Proof. split; [ep | apply mutated_true; ep]. Qed.
-Theorem C20_scatter_3d_refuted :
-  explicit_verdict gen_table FUEL eff_visualization_scatter_3d arity_visualization_scatter_3d = [false; true; false] /\
-  content (snd (exec_fun all_view gen_table FUEL eff_visualization_scatter_3d (unit_store 3))) 1 <> content (unit_store 3) 1.
-Proof. split; [ep | apply mutated_true; ep]. Qed.
-Theorem C20_compare_3d_refuted :
-  explicit_verdict gen_table FUEL eff_visualization_compare_3d arity_visualization_compare_3d = [false; false; true; false] /\
-  content (snd (exec_fun all_view gen_table FUEL eff_visualization_compare_3d (unit_store 4))) 2 <> content (unit_store 4) 2.
-Proof. split; [ep | apply mutated_true; ep]. Qed.
-(* ... and only that: the data frames handed to scatter_3d / compare_3d are never touched *)
-Theorem C20_scatter_3d_partial :
-  forall (o : oracle) fe (actuals : store), 3 <= length actuals ->
-    content (snd (exec_fun o gen_table fe eff_visualization_scatter_3d actuals)) 0 = content actuals 0.
-Proof. intros o fe actuals H. apply (exec_fun_arg_unchanged gen_table FUEL fe _ o actuals 3 0); side. Qed.
-Theorem C20_compare_3d_partial :
-  forall (o : oracle) fe (actuals : store), 4 <= length actuals ->
-    firstn 2 (snd (exec_fun o gen_table fe eff_visualization_compare_3d actuals)) = firstn 2 actuals.
-Proof. intros o fe actuals H. apply (exec_fun_pure_prefix gen_table FUEL fe _ o actuals 2); side. Qed.
+(* F16a (repaired: `xmin = np.array(xmin); xmax = np.array(xmax)`): bisect(f, xmin, xmax, tol, maxiter) used to overwrite
+   both bracket arrays of its caller (verdict [false; true; true; false; false], theorem C20_bisect_refuted).
+   F16b (repaired: `columns = list(columns) + ['Data']`): _generate_scatter_2d/3d_plot, scatter_2d/3d, compare_2d/3d used
+   to append 'Data' to the caller's `columns` list (verdicts [false; true; ..], theorems C20_*_refuted); a second identical
+   call then raised ValueError.  All seven are now in [pure_entries]; re-introducing `columns.append` on the parameter or
+   dropping a copy flips a verdict and breaks C20_entrypoints_verdicts / the C20_ep_ statement of that function, and the
+   dynamic check reports the regression under the same keys F16a:/F16b:. *)
+(* the repaired functions still WORK on a list / on arrays -- on their own copies: the generated programs contain the
+   copy followed by the writes *)
+Theorem C20_bisect_writes_only_its_copies :
+  existsb (fun i => match i with IWrite _ => true | _ => false end) (snd eff_optimize_bisect) = true /\
+  existsb (fun i => match i with ICopy _ 1 => true | _ => false end) (snd eff_optimize_bisect) = true /\
+  existsb (fun i => match i with ICopy _ 2 => true | _ => false end) (snd eff_optimize_bisect) = true.
+Proof. repeat split; ep. Qed.
 
 (* F3 (repaired in the source by `self.tau_matrix = np.array(tau_matrix)`): Tree.fit(index, n_nodes, tau_matrix,
    previous_tree, edges) used to write into the tau matrix it is handed (_sort_tau_by_y: tau_y = self.tau_matrix[:, y];
@@ -487,20 +459,16 @@ Theorem C20_scatter_rows :
           end.
 Proof. exact scatter_rows_multiset_nd. Qed.
 
-(* F16b in the plot model: a non-empty `columns` comes back with 'Data' appended (even when the call then raises),
-   and a second identical call with the same list object raises ValueError *)
-Theorem C20_columns_mutated :
-  forall k t data columns,
-    columns <> [] -> title_ok k t data columns = true ->
-    fst (plot_nd k t data columns) = columns ++ [data_col] /\
-    fst (plot_nd k t data columns) <> columns.
-Proof. exact columns_mutated. Qed.
-Theorem C20_second_call_fails :
+(* F16b repaired, in the plot model: the caller's `columns` list always comes back as given (figure or error), and a
+   second identical call with the same list object gives the same figure *)
+Theorem C20_columns_untouched :
+  forall k t data columns, fst (plot_nd k t data columns) = columns.
+Proof. exact columns_untouched. Qed.
+Theorem C20_second_call_same :
   forall k t data columns cols' fig,
-    columns <> [] ->
     plot_nd k t data columns = (cols', inr fig) ->
-    snd (plot_nd k t data cols') = inl ErrColumnCount.
-Proof. exact second_call_fails. Qed.
+    cols' = columns /\ plot_nd k t data cols' = (cols', inr fig).
+Proof. exact second_call_same_figure. Qed.
 Theorem C20_columns_none_untouched :
   forall k t data, fst (plot_nd k t data []) = [].
 Proof. exact columns_none_untouched. Qed.
@@ -518,8 +486,8 @@ Qed.
 (* ... while the generated programs are not trivial: see the refutations of section 3, which RUN them *)
 (* effect model and plot model agree on the mutated list *)
 Example C20_models_agree_on_columns :
-  nth 1 (explicit_verdict gen_table FUEL eff_visualization_scatter_2d 3) false = true /\
-  fst (scatter_2d false fr_real [1; 2]) = [1; 2; data_col].
+  nth 1 (explicit_verdict gen_table FUEL eff_visualization_scatter_2d 3) true = false /\
+  fst (scatter_2d false fr_real [1; 2]) = [1; 2].
 Proof. split; vm_compute; reflexivity. Qed.
 Example C20_plot_nonvacuous :
   exists cols' fig, compare_2d false fr_real fr_synth [1; 2] = (cols', inr fig) /\
@@ -529,7 +497,6 @@ Proof. exact plot_rows_multiset_nonvacuous. Qed.
 Print Assumptions C20_analysis_sound.
 Print Assumptions C20_args_unchanged.
 Print Assumptions C20_entrypoints.
-Print Assumptions C20_bisect_refuted.
 Print Assumptions C20_tree_fit_args_unchanged.
 Print Assumptions C20_plot_rows.
-Print Assumptions C20_second_call_fails.
+Print Assumptions C20_second_call_same.
